@@ -274,3 +274,81 @@ Proof.
   assert (Vt : vwf FT_AckFrequency) by (unfold vwf, FT_AckFrequency, maxVarInt8; lia).
   rewrite !zlen_app, !zlen_vappend by assumption. change (vlen FT_AckFrequency) with 2. lia.
 Qed.
+
+(** ---------------------------------------------------------------- Truncate *)
+
+Lemma vlen_le8 x : 0 <= vlen x <= 8.
+Proof.
+  unfold vlen. destruct (x <=? maxVarInt1); [lia|]. destruct (x <=? maxVarInt2); [lia|].
+  destruct (x <=? maxVarInt4); [lia|]. destruct (x <=? maxVarInt8); lia.
+Qed.
+
+Lemma ack_tail_len_bound s rs : 0 <= ack_tail_len s rs <= 16 * zlen rs.
+Proof.
+  revert s; induction rs as [|[s' l'] r IH]; intros s; cbn [ack_tail_len].
+  - change (zlen (@nil range)) with 0. lia.
+  - rewrite zlen_cons. specialize (IH s'). pose proof (vlen_le8 (s - l' - 2)). pose proof (vlen_le8 (l' - s')). lia.
+Qed.
+
+Lemma ack_fit_spec maxSize rs : forall i len s,
+  len <= maxSize ->
+  exists j : nat, ack_fit i len maxSize s rs = i + Z.of_nat j /\ (j <= length rs)%nat
+                  /\ len + ack_tail_len s (firstn j rs) <= maxSize.
+Proof.
+  induction rs as [|[s' l'] r IH]; intros i len s Hl; cbn [ack_fit].
+  - exists 0%nat. cbn. repeat split; lia.
+  - destruct (Z.ltb_spec maxSize (len + (vlen (s - l' - 2) + vlen (l' - s')))) as [L|L].
+    + exists 0%nat. cbn [firstn ack_tail_len length]. repeat split; lia.
+    + destruct (IH (i + 1) (len + (vlen (s - l' - 2) + vlen (l' - s'))) s' L) as (j & E & Hj & Hb).
+      exists (S j). cbn [firstn ack_tail_len length]. repeat split; lia.
+Qed.
+
+Lemma firstn_firstn_le {A} (j k : nat) (l : list A) : (j <= k)%nat -> firstn j (firstn k l) = firstn j l.
+Proof. intros H. rewrite firstn_firstn. f_equal. lia. Qed.
+
+(** Truncate keeps a non-empty prefix of at most 64 ranges whose encoding fits into maxSize,
+    provided a frame with the first range alone fits (the documented precondition). *)
+Theorem truncate_ack_fits ranges delay e0 e1 ce maxSize :
+  wf_ranges ranges ->
+  length_ack (firstn 1 ranges) delay e0 e1 ce <= maxSize ->
+  let t := truncate_ack ranges delay e0 e1 ce maxSize in
+  t <> [] /\ (exists rest, ranges = t ++ rest) /\ (length t <= 64)%nat /\ length_ack t delay e0 e1 ce <= maxSize.
+Proof.
+  intros Wr H1. unfold truncate_ack, num_encodable_ack_ranges.
+  destruct ranges as [|[s0 l0] r]; [contradiction|].
+  change (Z.to_nat W_MaxNumAckRanges) with 64%nat in *.
+  change (firstn 64 ((s0, l0) :: r)) with ((s0, l0) :: firstn 63 r).
+  change (firstn 1 ((s0, l0) :: r)) with [(s0, l0)] in H1.
+  set (rs := firstn 63 r).
+  assert (Hrs : (length rs <= 63)%nat) by (unfold rs; apply firstn_le_length).
+  set (ecn := ack_has_ecn e0 e1 ce) in *.
+  set (base := 1 + vlen l0 + vlen (encode_ack_delay delay) + 1 + vlen (l0 - s0) + (if ecn then vlen e0 + vlen e1 + vlen ce else 0)).
+  assert (Hb1 : base <= maxSize).
+  { unfold length_ack in H1. change (Z.to_nat W_MaxNumAckRanges) with 64%nat in H1.
+    change (firstn 64 [(s0, l0)]) with [(s0, l0)] in H1. cbn [ack_tail_len] in H1.
+    fold ecn in H1. unfold base. lia. }
+  (* both paths keep 1 + j ranges with j <= length rs and base + tail(j) <= maxSize *)
+  cbv zeta.
+  match goal with |- context [firstn (Z.to_nat ?k) _] =>
+    assert (exists j : nat, (j <= length rs)%nat /\ base + ack_tail_len s0 (firstn j rs) <= maxSize /\ k = 1 + Z.of_nat j)
+      as (j & Hj & Hfit & Ek)
+  end.
+  { fold rs. fold ecn.
+    match goal with |- context [if ?c <=? maxSize then _ else _] => destruct (Z.leb_spec c maxSize) as [F|F] end.
+    - exists (length rs). rewrite firstn_all. split; [lia|]. split; [|unfold zlen; lia].
+      pose proof (ack_tail_len_bound s0 rs). unfold base.
+      pose proof (vlen_le8 l0). pose proof (vlen_le8 (encode_ack_delay delay)). pose proof (vlen_le8 (l0 - s0)).
+      pose proof (vlen_le8 e0). pose proof (vlen_le8 e1). pose proof (vlen_le8 ce). destruct ecn; lia.
+    - destruct (ack_fit_spec maxSize rs 1 base s0 Hb1) as (j & E & Hj & Hb). exists j. split; [exact Hj|]. split; [exact Hb | exact E]. }
+  fold rs in Ek. fold ecn in Ek. rewrite Ek.
+  replace (Z.to_nat (1 + Z.of_nat j)) with (S j) by lia.
+  change (firstn (S j) ((s0, l0) :: r)) with ((s0, l0) :: firstn j r).
+  assert (Ej : firstn j rs = firstn j r) by (unfold rs; apply firstn_firstn_le; lia).
+  repeat split.
+  - discriminate.
+  - exists (skipn j r). rewrite <- app_comm_cons. f_equal. symmetry. apply firstn_skipn.
+  - cbn [length]. pose proof (firstn_le_length j r). lia.
+  - unfold length_ack. change (Z.to_nat W_MaxNumAckRanges) with 64%nat.
+    change (firstn 64 ((s0, l0) :: firstn j r)) with ((s0, l0) :: firstn 63 (firstn j r)).
+    rewrite (firstn_all2 (n := 63)) by (pose proof (firstn_le_length j r); lia). rewrite <- Ej. fold ecn. unfold base in Hfit. lia.
+Qed.
